@@ -7,6 +7,11 @@ from nixsa import mutants
 from concurrent.futures import ThreadPoolExecutor
 allp = ['C%02d' % i for i in range(1, 21)]
 src = sys.argv[1:] or allp
+# NIX_MATRIX_CHECKS=C01,C05 limits the checks that are run on every variant (after a change to the rules of those properties only)
+if os.environ.get('NIX_MATRIX_CHECKS'):
+    runp = [x for x in os.environ['NIX_MATRIX_CHECKS'].split(',') if x]
+else:
+    runp = allp
 jobs = []
 for p in src:
     for m in mutants.load_table(p)['neutral']:
@@ -22,7 +27,7 @@ def work(j):
         if not mutants.apply_edit(d, [(e['file'], e['old'], e['new']) for e in m.get('edits', [])]):
             return p, m['id'], ['skipped']
         env = dict(os.environ, NIX_REPO=d, NIX_NO_EVIDENCE='1')
-        for q in allp:
+        for q in runp:
             r = subprocess.run(['/verif/check', q, '--repo', d], stdout=subprocess.PIPE, stderr=subprocess.STDOUT, env=env, cwd='/verif')
             if r.returncode != 0:
                 lines = [l.strip()[:260] for l in r.stdout.decode().splitlines() if 'violation' in l or 'BROKEN' in l]
@@ -39,7 +44,7 @@ def work(j):
 bad = 0
 with ThreadPoolExecutor(max_workers=3) as ex:
     for p, mid, out in ex.map(work, jobs):
-        print('%s %-45s %s' % (p, mid, 'silent in all 20 checks' if not out else 'ALARM'), flush=True)
+        print('%s %-45s %s' % (p, mid, ('silent in all %d checks' % len(runp)) if not out else 'ALARM'), flush=True)
         for o in out:
             print('      ' + o, flush=True)
             bad += 1
